@@ -29,9 +29,9 @@ func storageActors(w *world.World) {
 // addBlobber registers a blobber through the storage contract (sent by the blobber itself).
 func addBlobber(w *world.World, b, delegate string, maxDelegates int) chainsim.Action {
 	in := map[string]any{
-		"url":      fmt.Sprintf("http://%s.verif:5051", b),
-		"terms":    map[string]any{"read_price": 0, "write_price": 10000000},
-		"capacity": 21474836480,
+		"url":                 fmt.Sprintf("http://%s.verif:5051", b),
+		"terms":               map[string]any{"read_price": 0, "write_price": 10000000},
+		"capacity":            21474836480,
 		"stake_pool_settings": map[string]any{"delegate_wallet": w.Actors[delegate].ID, "num_delegates": maxDelegates, "service_charge": 0.1},
 	}
 	return call(w, b, "storagesc", "add_blobber", in, 0, 0, "")
